@@ -12,7 +12,7 @@ import (
 
 // C15 — title comes from the page, is never invented, and is not repeated.
 
-var rxTitleTok = regexp.MustCompile(`t\d+x|h\d+y|g\d+y|M[OSI]\d+y`)
+var rxTitleTok = regexp.MustCompile(`t\d+x|ж\d+щ|h\d+y|g\d+y|M[OSI]\d+y`)
 
 var titleSeps = []string{" | ", " - ", " / ", " \\ ", " &gt; ", " &raquo; ", ": ", ":", " : ", "-", "|", " &mdash; ", " &middot; ", ", "}
 
@@ -27,6 +27,7 @@ type titleDoc struct {
 	Markup    string // markup title, "" if none
 	MarkupSrc string
 	HasSep    bool
+	NonASCII  bool // the title has non-ASCII letters: delivered as a parsed tree
 	Spec      string
 }
 
@@ -64,7 +65,7 @@ func bodyWords(pfx string, n int) string {
 }
 
 func genTitle(r *RNG) *titleDoc {
-	td := &titleDoc{}
+	td := &titleDoc{NonASCII: r.Intn(4) == 0}
 	nparts := 1 + r.Intn(4)
 	var sb strings.Builder
 	for p := 0; p < nparts; p++ {
@@ -80,7 +81,23 @@ func genTitle(r *RNG) *titleDoc {
 			if j > 0 {
 				sb.WriteString(strings.Repeat(" ", 1+r.Intn(2)))
 			}
-			fmt.Fprintf(&sb, "t%dx", r.Intn(100000))
+			if td.NonASCII {
+				// Cyrillic words: more bytes than characters
+				fmt.Fprintf(&sb, "%sж%dщ%s", strings.Repeat("и", r.Intn(4)), r.Intn(100000), strings.Repeat("я", r.Intn(4)))
+			} else {
+				fmt.Fprintf(&sb, "t%dx", r.Intn(100000))
+			}
+			// apostrophes and sentence punctuation inside / after words
+			switch r.Intn(14) {
+			case 0:
+				sb.WriteString("'s")
+			case 1:
+				if j == k-1 {
+					sb.WriteString([]string{"?", "!", ".", "..."}[r.Intn(4)])
+				}
+			case 2:
+				sb.WriteString("n't")
+			}
 		}
 	}
 	if r.Intn(30) == 0 {
@@ -155,9 +172,19 @@ func runC15(c *Ctx, idx int) {
 	td := genTitle(r)
 	src := td.build("")
 	c.SetInput(func() any { return map[string]any{"html": src} })
-	cr := c.applyReader(src, nil)
+	run := func(doc string) callResult {
+		if td.NonASCII {
+			// non-ASCII reaches the distiller through a parsed tree (dom.Parse guesses charsets)
+			return c.apply(parseHTML(doc), nil)
+		}
+		return c.applyReader(doc, nil)
+	}
+	cr := run(src)
 	if !c.usable(cr) {
 		return
+	}
+	if td.NonASCII {
+		c.Inc("non_ascii_titles")
 	}
 	T := cr.Res.Title
 	M := cr.Res.MarkupInfo.Title
@@ -209,7 +236,7 @@ func runC15(c *Ctx, idx int) {
 		block := "<" + tag + ">" + entityBack.Replace(T) + "</" + tag + ">"
 		src2 := td.build(block)
 		c.SetInput(func() any { return map[string]any{"html": src2} })
-		cr2 := c.applyReader(src2, nil)
+		cr2 := run(src2)
 		if !c.usable(cr2) {
 			return
 		}
